@@ -26,7 +26,13 @@ type Control struct {
 	Enabled  func() bool
 	issued   bool
 	returned atomic.Bool
+	inTime   bool
 }
+
+// ReturnedInTime reports whether Do had returned when the exploration of the execution ended, i.e. BEFORE the harness
+// started to wind the engine down (aborting gates, cancelling contexts, force-stopping): a call that only returns
+// because of the wind-down did not return on its own.
+func (c *Control) ReturnedInTime() bool { return c.inTime }
 
 // Returned reports whether the control's Do has returned.
 func (c *Control) Returned() bool { return c.returned.Load() }
@@ -353,6 +359,9 @@ func (e *Explorer) RunOnce(prefix []string) *Exec {
 				x.apply(alts[choice])
 			}
 			synctest.Wait()
+			for _, c := range x.Controls {
+				c.inTime = c.Returned()
+			}
 			for _, f := range x.finals {
 				f()
 			}
